@@ -431,6 +431,17 @@ def main():
             undecided.append('unstable proof: unit %s seed %d rlimit %d -> failed %s undecided %s' % (
                 s['unit'], s['seed'], s['rlimit'], s['failed'], s['undecided']))
 
+    # known findings (known_findings.txt, read-only): identified by obligation AND the failure signature, removed
+    # from the failed set before anything is judged - a different failure of the same obligation still counts
+    kf = common.known_findings()
+    known_hits = []
+    for n in list(failed):
+        for k in kf['known']:
+            if k['property'] == pid and k['obligation'] == n and (not k['match'] or any(k['match'] in d for d in failed[n])):
+                known_hits.append((n, '%s :: %s' % ('; '.join(failed[n])[:300], k['what'][:200])))
+                del failed[n]
+                break
+
     if a.record_baseline:
         if failed or undecided:
             log('refusing to record a baseline with failures/undecided: %s %s' % (list(failed)[:5], undecided[:5]))
@@ -454,16 +465,6 @@ def main():
     if P.get('side') and wr is None:
         wr = prepare_workrepo(work, kcfgs, ocfgs, P.get('side'))
     side_res = side.run(pid, P, common.REPO, wr, work, tier, seed) if P.get('side') else None
-
-    # known findings
-    kf = common.known_findings()
-    known_hits = []
-    for n in list(refuted):
-        for k in kf['known']:
-            if k['property'] == pid and k['obligation'] == n:
-                known_hits.append((n, k['what']))
-                refuted.remove(n)
-                break
 
     violations = []
     replay_path = None
